@@ -8,6 +8,16 @@ package loading
 
 //@ func (*makefileParser).handleTarget(p, annotationLines, annotationLineNumbers, targetLine) (err)
 //@   requires [same_len] len(annotationLines) == len(annotationLineNumbers)
+// C16: a Makefile rule is the target named by the text before the rule's first colon, built by `make <that name>`, and
+// carries the annotation's lists unchanged (the annotation's own name, when given, replaces the rule name as label only).
+//@   ensures [one_target_appended] err == nil ==> len(p.pkg.Targets) == old(len(p.pkg.Targets)) + 1
+//@   ensures [rule_name_is_text_before_first_colon] err == nil ==>
+//@        p.pkg.Targets[len(p.pkg.Targets)-1].Command == "make " + sub(trimSpace(targetLine), 0, idx(trimSpace(targetLine), ":")) &&
+//@        p.pkg.Targets[len(p.pkg.Targets)-1].Name == ite(annotation.scriptAnnotation.Name != "", annotation.scriptAnnotation.Name, sub(trimSpace(targetLine), 0, idx(trimSpace(targetLine), ":")))
+//@   ensures [annotation_lists_carried] err == nil ==>
+//@        p.pkg.Targets[len(p.pkg.Targets)-1].Dependencies == annotation.scriptAnnotation.Dependencies && p.pkg.Targets[len(p.pkg.Targets)-1].Inputs == annotation.scriptAnnotation.Inputs &&
+//@        p.pkg.Targets[len(p.pkg.Targets)-1].Outputs == annotation.Outputs && p.pkg.Targets[len(p.pkg.Targets)-1].Tags == annotation.scriptAnnotation.Tags
+//@   ensures [no_rule_without_colon] err == nil ==> contains(trimSpace(targetLine), ":")
 
 //@ func (*makefileParser).parse(p) (pkg, found, err)
 //@   before_call append#1 [annotation_line_verbatim] len(arg2) == 1 && arg2[0] == sub(trimmedNext, 1, len(trimmedNext))
